@@ -433,8 +433,17 @@ class Verdict:
             os.makedirs(os.path.join(REPLAYS, self.pid), exist_ok=True)
             # group by detail class so that the output stays readable
             shown = 0
+            # one replay file per distinct small-field signature (at most 12), so that different classes are all visible
+            seen_sig, picked = set(), []
             for case, detail in self.violations:
-                if shown >= 5:
+                sig = json.dumps({k: v for k, v in case.items() if isinstance(v, (bool, int, str)) and len(str(v)) < 60}, sort_keys=True)
+                if sig not in seen_sig:
+                    seen_sig.add(sig)
+                    picked.append((case, detail))
+                if len(picked) >= 12:
+                    break
+            for case, detail in picked:
+                if shown >= 12:
                     break
                 h = hashlib.sha1(json.dumps(case, sort_keys=True, default=str).encode()).hexdigest()[:12]
                 path = os.path.join(REPLAYS, self.pid, h + ".json")
@@ -447,6 +456,8 @@ class Verdict:
                 shown += 1
             if nviol > shown:
                 log("  (+%d more violating cases)" % (nviol - shown))
+            with open(os.path.join(REPLAYS, self.pid, "_all_cases.json"), "w") as fp:
+                json.dump([c for c, _ in self.violations[:5000]], fp, default=str)
         for dnote in self.drift[:10]:
             log("DRIFT property=%s %s" % (self.pid, dnote))
         cov = dict(self.cov)
